@@ -851,15 +851,18 @@ def _poly_fn(order, dim, rng):
     return f
 
 
-def _native_locate(et, how, seed):
+def _native_locate(et, how, seed, S=1.0):
     rng = np.random.default_rng(seed + 11)
     dim = _dim(et)
     mesh, pts_, _ = _gmsh_mesh(et, seed, False, size=0.7, height=None if dim == 2 else 1.3)
+    if S != 1.0:
+        mesh.coord = S * np.asarray(mesh.coord)         # the same mesh in another unit of length
     g = mesh.groupElem
     c0 = np.asarray(mesh.coord).copy()
     distorted = et.startswith(("QUAD", "HEXA"))
     order = 1 if (distorted and et in SERENDIPITY) else ORDER[et]
-    f = _poly_fn(order, dim, rng)
+    f1 = _poly_fn(order, dim, rng)
+    f = f1 if S == 1.0 else (lambda X_: f1(np.asarray(X_) / S))
     # queries built in the reference configuration: interior (image of random reference points), edge midpoints, nodes
     Nf, loc = g._N(), np.asarray(g.Get_Local_Coords(), dtype=float)
     cen = loc.mean(0)
@@ -898,10 +901,10 @@ def _native_locate(et, how, seed):
     return dict(err=float(err), missing=int((v == 0).sum() + (v1 == 0).sum()), order=order, nq=len(q))
 
 
-def ob_locate(et, how, seed):
-    r = _native_locate(et, how, seed)
+def ob_locate(et, how, seed, S=1.0):
+    r = _native_locate(et, how, seed, S)
     if r["missing"] or r["err"] > 1e-6:
-        raise Refuted(f"{et} ({how}): evaluating a degree-{r['order']} polynomial nodal field at {r['nq']} located points (interior, edge midpoints, nodes; batch, pairs and single queries): "
+        raise Refuted(f"{et} ({how}{'' if S == 1.0 else f', coordinates multiplied by {S:g}'}): evaluating a degree-{r['order']} polynomial nodal field at {r['nq']} located points (interior, edge midpoints, nodes; batch, pairs and single queries): "
                       f"relative error {r['err']:.3e}, {r['missing']} points not located", cex=dict(elemType=et, motion=how, seed=seed), signature=f"locate:{et}:{how}",
                       replay=dict(confirmed=True, **r))
     return Verdict(DISCHARGED, backend="native gmsh mesh", detail=f"err {r['err']:.1e}")
@@ -1257,6 +1260,10 @@ def build(tier, seed):
         obs.append(Ob(f"C08.locate.scaled.{et}.L{S:g}", ob_locate_dense, (et, organised, S), "X", (f"{GE}::_GroupElem.Get_pointsInElem", f"{GE}::_GroupElem._Get_coord_Near"),
                       bound="one box mesh of side L (64-800 elements), up to 350 special query points + 800 random interior points", timeout=1200,
                       clause="point location does not depend on the unit of length: points on edges / diagonals / centres of a mesh of side L are located, a linear field is reproduced"))
+    for et, S in (("QUAD4", 1e-3), ("QUAD4", 1e-5), ("QUAD4", 1e4), ("HEXA8", 1e-3), ("TRI6", 1e-3)):
+        obs.append(Ob(f"C08.locate.unit.{et}.L{S:g}", ob_locate, (et, "plain", 3, S), "X", (f"{GE}::_GroupElem._Get_Mapping", f"{GE}::_GroupElem.Get_pointsInElem"),
+                      bound="one gmsh mesh of a non-parallelogram polygon with its coordinates multiplied by L, 24 queries", timeout=1200,
+                      clause="the inverse map of general (non-parallelogram) elements does not depend on the unit of length: polynomial of the element order reproduced (1e-6 relative)"))
     for et, organised in (("TRI3", False), ("TETRA4", False), ("QUAD4", True)):
         obs.append(Ob(f"C08.locate.far.{et}", ob_locate_dense, (et, organised, 1.0, (3e5, -2e5, 1e5)), "X", (f"{GE}::_GroupElem.Get_pointsInElem", f"{GE}::_GroupElem._Get_coord_Near"),
                       bound="one unit box mesh turned by 33 degrees and carried to (3e5, -2e5, 1e5), up to 350 special query points + 800 random interior points", timeout=1200,
